@@ -204,6 +204,10 @@ func RunFunction(P *Program, name string, cfg *Config, so SolveOpts) *FuncReport
 		if r.Backend == "" && r.Status == "discharged" {
 			r.Backend = "syntactic"
 		}
+		if r.Family == "F2" && npSweep {
+			rep.Results = append(rep.Results, r) // audit mode: one line per site
+			continue
+		}
 		if r.Family == "F2" {
 			if agg == nil {
 				agg = &OblResult{Name: name + "#F2.no_panic", Family: "F2", Func: name, Status: "discharged", Backend: r.Backend}
